@@ -4,8 +4,11 @@ CHECK = dict(
     variants=[dict(name="tsan", flavour="tsan"), dict(name="asan", flavour="asan"), dict(name="plain", flavour="plain")],
     parallel_runs=1,
     floor={"tsan:buffer_elements_checked": 10000, "plain:buffer_elements_checked": 100000,
-           "tsan:value_updates_true": 100, "plain:value_updates_true": 1000},
+           "tsan:value_updates_true": 100, "plain:value_updates_true": 1000,
+           "plain:value_burst_assignments_failed_by_failpoint": 500, "tsan:value_burst_assignments_failed_by_failpoint": 50,
+           "plain:value_assignments_failed_by_failpoint": 100},
     assumptions=[
+        "an assignment whose payload copy throws (failpoint) has not assigned anything: it must leave nothing visible to the consumer",
         "documented usage only: any number of producers + one consumer on a TransactionalBuffer; one producer + one consumer on a TransactionalValue",
         "interleavings are sampled (1..8 producers, three pacing profiles, repeated rounds); ThreadSanitizer decides the data-race clause",
     ],
